@@ -411,6 +411,12 @@ fn make_field(rng: &mut Rng, name: String, declared: &[Declared], self_name: Opt
                 opt_by_name = false;
                 tags.push("option_alias".into());
             }
+            3 => {
+                // a parenthesised type is still an Option to the derive (Type::Paren)
+                ty_src = format!("(Option<{inner}>)");
+                opt_by_name = true;
+                tags.push("option_in_parens".into());
+            }
             _ => {
                 opt_by_name = true;
                 tags.push("option_plain".into());
@@ -623,6 +629,7 @@ pub fn history_version_decl(h: &History, k: usize, name: &str) -> RecordDecl {
                     1 => format!("::core::option::Option<{rest}"),
                     2 => format!("std::option::Option<{rest}"),
                     3 => format!("core::option::Option<{rest}"),
+                    4 => format!("(Option<{rest})"),
                     _ => ty.clone(),
                 },
                 _ => ty.clone(),
